@@ -221,6 +221,8 @@ def run(chk, mode_filter=None, alg_filter=None, only_cells=False, ids=('T2', 'T2
         # the burst path dispatches by suite id: its guards (stale suite id rejected, ...) are those of the reference tree
         from . import c12 as _c12
         _c12.run_v9(chk, P, 'T9', lambda fn: 'burst' in fn, 100)
+        from . import callctx
+        callctx.rule_call_contexts(chk, P, 'T10', None, 1000)
     nvar = 0
     acc_ref = None
     for tu in P.variant_tus():
